@@ -150,7 +150,8 @@ double OPNMIDIplay::Tick(double s, double granularity)
     s *= seqr.getTempoMultiplier();
     TickIterators(s);
 
-    return ret;
+    // The sequencer counts in song time; callers wait (and render audio) in real time
+    return ret / seqr.getTempoMultiplier();
 }
 
 #endif /* OPNMIDI_DISABLE_MIDI_SEQUENCER */
